@@ -31,7 +31,7 @@ type m3uKind int
 const (
 	m3uAny m3uKind = iota
 	m3uMultivariant
-	m3uMedia
+	m3uKindMedia
 )
 
 type m3uForm int
